@@ -21,13 +21,14 @@ def make_machine(name, new_state, init_strategy, rules, step, close=None):
         RuleBasedStateMachine.__init__(self)
         ctx = type(self)._ctx
         self.trace = []
-        self.skip = ctx.out_of_time()
+        self.skip = False
         self.state = None
-        if self.skip:
-            ctx.skipped_budget += 1
-        else:
-            ctx.begin_case()
-            self.state = new_state(ctx)
+        if ctx.out_of_time():
+            from .runner import BudgetStop
+
+            raise BudgetStop()
+        ctx.begin_case()
+        self.state = new_state(ctx)
 
     def _apply(self, op):
         if self.skip:
